@@ -8,7 +8,7 @@ use crate::rfc9180 as rfc;
 use crate::util::*;
 use hpke::kem::ToyKemLin;
 use hpke::verif_model::{LinHash, LinKdf, XorPrivateKey, XorPublicKey};
-use hpke::{setup_receiver, HpkeError, OpModeR, PskBundle};
+use hpke::{setup_receiver, setup_sender, HpkeError, OpModeR, OpModeS, PskBundle, Serializable};
 
 const N: usize = 64;
 
@@ -57,6 +57,40 @@ pub fn c15_l2_empty_bundle_psk_mode() {
             assert!(eq_bytes(ctx.verif_exporter_secret(), sched.exporter_secret.as_slice()));
         }
         (Err(e), None) => assert!(e == HpkeError::DecapError),
+        _ => assert!(false),
+    }
+}
+
+//@h name=c15_l2_empty_bundle_psk_mode_sender tier=quick mode=func also=C01,C02 timeout=1200 desc="sender side: the empty bundle in Psk mode enters the key schedule as mode byte 1 with empty psk and psk_id (so a sender and a receiver that both hold the empty bundle agree, and neither silently falls back to Base): enc, key, base nonce, exporter secret equal RFC SetupS with mode=1" bounds="all RNG outputs, pkR; info 0..=2 B; LinHash model suite; unwind 20"
+#[kani::proof]
+#[kani::unwind(20)]
+#[kani::stub(zeroize::optimization_barrier, noop_barrier)]
+#[kani::stub(hkdf::HkdfExtract::new, crate::fasthkdf::stub_extract_new)]
+#[kani::stub(hkdf::HkdfExtract::input_ikm, crate::fasthkdf::stub_input_ikm)]
+#[kani::stub(hkdf::HkdfExtract::finalize, crate::fasthkdf::stub_finalize)]
+#[kani::stub(hkdf::Hkdf::from_prk, crate::fasthkdf::stub_from_prk)]
+#[kani::stub(hkdf::Hkdf::expand_multi_info, crate::fasthkdf::stub_expand_multi_info)]
+pub fn c15_l2_empty_bundle_psk_mode_sender() {
+    let bytes: [u8; RNG_CAP] = kani::any();
+    let mut rng = ScriptRng::new(bytes);
+    let pk_r: u16 = kani::any();
+    let info: [u8; 2] = kani::any();
+    let il = any_len(2);
+    let bundle = PskBundle::new(&[], &[]).unwrap();
+    let mode = OpModeS::<ToyKemLin>::Psk(bundle);
+    let res = setup_sender::<SpyAead16, LinKdf, ToyKemLin, _>(&mode, &XorPublicKey(pk_r), &info[..il], &mut rng);
+    let mut e = [0u8; 2];
+    rfc::derive_sk_simple::<LinHash>(KEM_ID, &bytes[..2], &mut e);
+    match (res, rfc::encap::<G8, LinHash>(KEM_ID, pk_r, u16::from_be_bytes(e), None)) {
+        (Ok((enc, ctx)), Some((ss, wenc))) => {
+            assert!(eq_bytes(&enc.to_bytes(), wenc.as_slice()));
+            let suite = rfc::full_suite_id(KEM_ID, KDF_ID, AEAD_ID);
+            let sched = rfc::key_schedule::<LinHash>(rfc::MODE_PSK, ss.as_slice(), &info[..il], &[], &[], &suite, 16, 12);
+            assert!(eq_bytes(&spy().new_key[..16], sched.key.as_slice()));
+            assert!(eq_bytes(ctx.verif_base_nonce(), sched.base_nonce.as_slice()));
+            assert!(eq_bytes(ctx.verif_exporter_secret(), sched.exporter_secret.as_slice()));
+        }
+        (Err(e), None) => assert!(e == HpkeError::EncapError),
         _ => assert!(false),
     }
 }
